@@ -23,21 +23,23 @@ from pymarkdown.plugin_manager.plugin_manager import PluginManager
 LAYERS = {"pyproject": None, "default": None, "config": None}
 
 
-def _apply(props, content):
+def _apply(props, content, clear_property_map=True):
+    """loader contract: absent file -> (False, False), nothing touched; present -> the parsed
+    content is loaded with load_from_dict(content, clear_map=clear_property_map)"""
     if content is None:
         return False, False
-    props.load_from_dict(content, clear_map=False)
+    props.load_from_dict(content, clear_map=clear_property_map)
     return True, False
 
 
 def _std_files(properties, handle_error_fn=None):
-    _apply(properties, LAYERS["pyproject"])
+    _apply(properties, LAYERS["pyproject"], False)
 
 
-def _json_load_and_set(properties, file_name, *a, **k):
+def _json_load_and_set(properties, file_name, handle_error_fn=None, clear_property_map=True, check_for_file_presence=True, load_as_json5_file=False):
     if file_name.endswith(".pymarkdown"):
-        return _apply(properties, LAYERS["default"])
-    return _apply(properties, LAYERS["config"])
+        return _apply(properties, LAYERS["default"], clear_property_map)
+    return _apply(properties, LAYERS["config"], clear_property_map)
 
 
 def _absent(properties, file_name, *a, **k):
@@ -101,11 +103,14 @@ def install():
     ACH.os = _Os()
 
 
-def tri(present, value, name):
-    """layer content for `plugins.<name>.enabled`"""
+def tri(present, value, name, extra=None):
+    """layer content for `plugins.<name>.enabled` (+ optionally another rule's flag)"""
     if not present:
         return None
-    return {"plugins": {name: {"enabled": value}}}
+    d = {"plugins": {name: {"enabled": value}}}
+    if extra is not None:
+        d["plugins"][extra[0]] = {"enabled": extra[1]}
+    return d
 
 
 class EnabledHarness:
@@ -123,11 +128,13 @@ class EnabledHarness:
         v = []
         for layer in ("py", "df", "cf", "st"):
             v += [(f"{layer}_present", "bool"), (f"{layer}_value", "bool")]
-        return v + [("cli_e", "bool"), ("cli_d", "bool")]
+        return v + [("cli_e", "bool"), ("cli_d", "bool"), ("py_other", "bool"), ("df_other_present", "bool"), ("df_other", "bool")]
+
+    OTHER = "md047"  # a second rule mentioned only by some layers
 
     def body(self, v):
-        LAYERS["pyproject"] = tri(v["py_present"], v["py_value"], self.name)
-        LAYERS["default"] = tri(v["df_present"], v["df_value"], self.name)
+        LAYERS["pyproject"] = tri(v["py_present"], v["py_value"], self.name, (self.OTHER, v["py_other"]))
+        LAYERS["default"] = tri(v["df_present"], v["df_value"], self.name, (self.OTHER, v["df_other"]) if v["df_other_present"] else None)
         LAYERS["config"] = tri(v["cf_present"], v["cf_value"], self.name)
         sets = None
         if v["st_present"]:
@@ -141,15 +148,18 @@ class EnabledHarness:
         pm.initialize(env.plugin_dir(), [], self.name if v["cli_e"] else "", self.name if v["cli_d"] else "", props, False, False)
         pm.apply_configuration(props)
         enabled = False
+        other = False
         for p in pm.enabled_plugins:
             if p.plugin_id.lower() == self.rule.lower():
                 enabled = True
-        return (enabled, errors)
+            if p.plugin_id.lower() == self.OTHER:
+                other = True
+        return (enabled, errors, other)
 
     def judge(self, obs, v):
         if isinstance(obs, Raised):
             return [{"kind": "exception", "detail": obs.describe()}]
-        enabled, errors = obs
+        enabled, errors, other = obs
         # R-prec: most specific layer that mentions the rule
         if v["cli_d"]:
             want, why = False, "--disable-rules"
@@ -169,6 +179,15 @@ class EnabledHarness:
             return [{"kind": "configuration-error", "detail": {"errors": errors[:2]}}]
         if bool(enabled) != bool(want):
             return [{"kind": "precedence", "detail": {"enabled": bool(enabled), "expected": bool(want), "deciding_layer": why}}]
+        # the second rule is mentioned only by the project file and (optionally) the default file
+        if v["df_present"] and v["df_other_present"]:
+            want_other = v["df_other"]
+        elif v["py_present"]:
+            want_other = v["py_other"]
+        else:
+            want_other = True  # MD047's default
+        if self.rule.lower() != self.OTHER and bool(other) != bool(want_other):
+            return [{"kind": "precedence-other-rule", "detail": {"rule": self.OTHER, "enabled": bool(other), "expected": bool(want_other)}}]
         return []
 
     def digest(self, obs, rv):
